@@ -34,6 +34,12 @@ theorem gen_toDouble (ds : DblSem) (v : Val) : VariantCoerce.toDouble ds v = v.t
 theorem gen_toStr (ds : DblSem) (v : Val) : VariantCoerce.toStr ds v = v.toStr ds := by
   cases v <;> first | rfl | (rename_i b; cases b <;> rfl)
 
+/-- the translated `operator==` (per tag of `*this`; `ceq` = the containers' `operator==`, `flip` = the call `other == *this`)
+    is one unfolding of the value model's `veq`, for every pair of values of all 121 type pairs -/
+theorem gen_eq (ds : DblSem) (v o : Val) : VariantCoerce.eq ds (veq ds) (veq ds) v o = veq ds v o := by
+  cases v <;> cases o <;> simp [VariantCoerce.eq, veq, scalarEq, gen_toBool, gen_toDouble, gen_toInt, gen_toUInt, gen_toInt64,
+    gen_toUInt64, gen_isNull, gen_getType, Val.type]
+
 theorem upd_upd2 {α} (f : Nat → α) (v : Nat) (a b : α) : upd (upd f v a) v b = upd f v b := by
   funext j; simp only [upd]; by_cases hj : j = v <;> simp [hj]
 theorem upd_self {α} (f : Nat → α) (v : Nat) (a : α) (h : f v = a) : upd f v a = f := by
@@ -98,14 +104,14 @@ theorem gen_copyCtor (s : Heap) (this : Obj) (other : Cell) (hl : Live s other) 
       = some ((copyCell s other).1, norm (copyCell s other).2) := by
   obtain ⟨data, own⟩ := this
   cases other with
-  | null => simp [VariantRep.copyCtor, cref, descOf, Obj.cell, copyCell, norm]
+  | null => simp [VariantRep.copyCtor, cref, ctype, descOf, Obj.cell, copyCell, norm]
   | inl x =>
     have hx := hl.1 x rfl
-    cases x <;> simp [VariantRep.copyCtor, cref, descOf, Obj.cell, copyCell, norm, Val.type, Val.isBoxed] at hx ⊢
+    cases x <;> simp [VariantRep.copyCtor, cref, ctype, descOf, Obj.cell, copyCell, norm, Val.type, Val.isBoxed] at hx ⊢
   | ptr b =>
     obtain ⟨blk, hb, hr⟩ := hl.2 b rfl
     have h0 : blk.ref ≠ 0 := by omega
-    simp [VariantRep.copyCtor, cref, ptrOf, Obj.incr, incrBlk, Obj.cell, copyCell, incr, norm, hb, h0]
+    simp [VariantRep.copyCtor, cref, ctype, ptrOf, Obj.incr, incrBlk, Obj.cell, copyCell, incr, norm, hb, h0]
 
 /-- the translated `operator=(const Variant&)`: nothing for `v = v`; otherwise take the handle of `other` first
     (`copyCell`), then `release` the old payload, then install -/
@@ -116,11 +122,11 @@ theorem gen_assign (f : Nat) (s : Heap) (this : Obj) (c other : Cell) (hc : this
   refine ⟨by simp [VariantRep.assign], ?_⟩
   cases other with
   | null =>
-    simp only [VariantRep.assign, cref, descOf, gen_clear f s this c hc, copyCell]
+    simp only [VariantRep.assign, cref, ctype, descOf, gen_clear f s this c hc, copyCell]
     cases release (f + 1) s c <;> simp [Obj.cell, norm]
   | inl x =>
     have hx := hl.1 x rfl
-    simp only [VariantRep.assign, cref, descOf, gen_clear f s this c hc, copyCell]
+    simp only [VariantRep.assign, cref, ctype, descOf, gen_clear f s this c hc, copyCell]
     cases release (f + 1) s c <;> cases x <;> simp [Obj.cell, norm, Val.type, Val.isBoxed] at hx ⊢
   | ptr b =>
     obtain ⟨blk, hb, hr⟩ := hl.2 b rfl
@@ -189,7 +195,8 @@ theorem gen_toMapMut (f : Nat) (ds : DblSem) (s : Heap) (this : Obj) (c : Cell) 
     have hty : pc.type = 7 := by have := copyPay_type s p; rw [hcp] at this; simp only at this; omega
     simp only [VariantRep.toMapMut, accessCell, type_of_cell s this c hc hl, ref_of_cell s this c hc hl, hp1, hcp, hacc, allocInit,
       hty, Deep.alloc, gen_clear f _ this c hc]
-    by_cases h1 : cellType s c = 7 <;> by_cases h2 : cellRef s c > 1 <;> simp [h1, h2, hc] <;>
+    have hle : (cellRef s c ≤ 1) = ¬ (cellRef s c > 1) := propext (by omega)
+    by_cases h1 : cellType s c = 7 <;> by_cases h2 : cellRef s c > 1 <;> simp [h1, h2, hle, hc] <;>
       (cases release (f + 1) _ c <;> simp [Obj.cell])
 theorem gen_toListConst (ds : DblSem) (s : Heap) (this : Obj) (c : Cell) (hc : this.cell = some c) (hl : Live s c) :
     ∃ p, VariantRep.toListConst s this = some p ∧ copyPay s p = accessPay ds s c 8 ∧ p.type = 8 := by
@@ -206,7 +213,8 @@ theorem gen_toListMut (f : Nat) (ds : DblSem) (s : Heap) (this : Obj) (c : Cell)
     have hty : pc.type = 8 := by have := copyPay_type s p; rw [hcp] at this; simp only at this; omega
     simp only [VariantRep.toListMut, accessCell, type_of_cell s this c hc hl, ref_of_cell s this c hc hl, hp1, hcp, hacc, allocInit,
       hty, Deep.alloc, gen_clear f _ this c hc]
-    by_cases h1 : cellType s c = 8 <;> by_cases h2 : cellRef s c > 1 <;> simp [h1, h2, hc] <;>
+    have hle : (cellRef s c ≤ 1) = ¬ (cellRef s c > 1) := propext (by omega)
+    by_cases h1 : cellType s c = 8 <;> by_cases h2 : cellRef s c > 1 <;> simp [h1, h2, hle, hc] <;>
       (cases release (f + 1) _ c <;> simp [Obj.cell])
 theorem gen_toArrayConst (ds : DblSem) (s : Heap) (this : Obj) (c : Cell) (hc : this.cell = some c) (hl : Live s c) :
     ∃ p, VariantRep.toArrayConst s this = some p ∧ copyPay s p = accessPay ds s c 9 ∧ p.type = 9 := by
@@ -223,7 +231,8 @@ theorem gen_toArrayMut (f : Nat) (ds : DblSem) (s : Heap) (this : Obj) (c : Cell
     have hty : pc.type = 9 := by have := copyPay_type s p; rw [hcp] at this; simp only at this; omega
     simp only [VariantRep.toArrayMut, accessCell, type_of_cell s this c hc hl, ref_of_cell s this c hc hl, hp1, hcp, hacc, allocInit,
       hty, Deep.alloc, gen_clear f _ this c hc]
-    by_cases h1 : cellType s c = 9 <;> by_cases h2 : cellRef s c > 1 <;> simp [h1, h2, hc] <;>
+    have hle : (cellRef s c ≤ 1) = ¬ (cellRef s c > 1) := propext (by omega)
+    by_cases h1 : cellType s c = 9 <;> by_cases h2 : cellRef s c > 1 <;> simp [h1, h2, hle, hc] <;>
       (cases release (f + 1) _ c <;> simp [Obj.cell])
 
 theorem accessPay_str (ds : DblSem) (s : Heap) (c : Cell) (hl : Live s c) : accessPay ds s c 10 = (s, .str (cellStr ds s c)) := by
@@ -244,7 +253,8 @@ theorem gen_toStringMut (f : Nat) (ds : DblSem) (s : Heap) (this : Obj) (c : Cel
   have hs : Obj.str ds s this = some (cellStr ds s c) := by simp [Obj.str, hc]
   simp only [VariantRep.toStringMut, accessCell, type_of_cell s this c hc hl, ref_of_cell s this c hc hl, hs, copyPay,
     accessPay_str ds s c hl, allocInit, Pay.type, Deep.alloc, gen_clear f _ this c hc]
-  by_cases h1 : cellType s c = 10 <;> by_cases h2 : cellRef s c > 1 <;> simp [h1, h2, hc] <;>
+  have hle : (cellRef s c ≤ 1) = ¬ (cellRef s c > 1) := propext (by omega)
+  by_cases h1 : cellType s c = 10 <;> by_cases h2 : cellRef s c > 1 <;> simp [h1, h2, hle, hc] <;>
     (cases release (f + 1) _ c <;> simp [Obj.cell])
 
 /-! ### the typed `operator=` -/
@@ -376,15 +386,16 @@ theorem gen_setMap (f : Nat) (s : Heap) (this : Obj) (c : Cell) (hc : this.cell 
   have hcl : cellType s c ≠ 7 ∨ cellRef s c > 1 → (VariantRep.setMap (release f) s this p).bind (fun r => r.2.cell.map (fun c' => (r.1, c')))
       = setBoxedCell (f + 1) s c p := by
     intro hor
+    have hle : (cellRef s c ≤ 1) = ¬ (cellRef s c > 1) := propext (by omega)
     have hif : (cellType s c ≠ p.type ∨ cellRef s c > 1) := by rw [hp]; exact hor
     simp only [VariantRep.setMap, setBoxedCell, type_of_cell s this c hc hl, ref_of_cell s this c hc hl, gen_clear f _ this c hc, hif, if_true]
     cases hrel : release (f + 1) s c with
-    | none => by_cases h1 : cellType s c = 7 <;> by_cases h2 : cellRef s c > 1 <;> simp [h1, h2] at hor ⊢
+    | none => by_cases h1 : cellType s c = 7 <;> by_cases h2 : cellRef s c > 1 <;> simp [h1, h2, hle] at hor ⊢
     | some s1 =>
       cases hcp : copyPay s1 p with
       | mk s2 pc =>
         have hty : pc.type = 7 := by have := copyPay_type s1 p; rw [hcp] at this; simp only at this; omega
-        by_cases h1 : cellType s c = 7 <;> by_cases h2 : cellRef s c > 1 <;> simp [h1, h2, hcp, allocInit, hty, Deep.alloc, Obj.cell] at hor ⊢
+        by_cases h1 : cellType s c = 7 <;> by_cases h2 : cellRef s c > 1 <;> simp [h1, h2, hle, hcp, allocInit, hty, Deep.alloc, Obj.cell] at hor ⊢
   by_cases hor : cellType s c ≠ 7 ∨ cellRef s c > 1
   · rw [if_pos hor]; exact hcl hor
   · rw [if_neg hor]
@@ -396,7 +407,8 @@ theorem gen_setMap (f : Nat) (s : Heap) (this : Obj) (c : Cell) (hc : this.cell 
     · obtain ⟨blk, hb, _⟩ := hl.2 b rfl
       have hbt : blk.pay.type = 7 := by simpa [cellType, hb] using h1
       have hbr : ¬ blk.ref > 1 := by simpa [cellRef, hb] using h2
-      simp only [VariantRep.setMap, Obj.type, Obj.ref, hb, Option.map_some, hbt, ne_eq, not_true_eq_false, if_false, hbr,
+      have hbr' : blk.ref ≤ 1 := by omega
+      simp only [VariantRep.setMap, Obj.type, Obj.ref, hb, Option.map_some, hbt, ne_eq, not_true_eq_false, if_false, if_true, hbr, hbr', and_self, not_true_eq_false,
         Obj.assignPay, hp, and_self, if_true, destroyAll, releaseAll]
       cases hcp : copyPay s p with
       | mk s1 pc =>
@@ -418,15 +430,16 @@ theorem gen_setList (f : Nat) (s : Heap) (this : Obj) (c : Cell) (hc : this.cell
   have hcl : cellType s c ≠ 8 ∨ cellRef s c > 1 → (VariantRep.setList (release f) s this p).bind (fun r => r.2.cell.map (fun c' => (r.1, c')))
       = setBoxedCell (f + 1) s c p := by
     intro hor
+    have hle : (cellRef s c ≤ 1) = ¬ (cellRef s c > 1) := propext (by omega)
     have hif : (cellType s c ≠ p.type ∨ cellRef s c > 1) := by rw [hp]; exact hor
     simp only [VariantRep.setList, setBoxedCell, type_of_cell s this c hc hl, ref_of_cell s this c hc hl, gen_clear f _ this c hc, hif, if_true]
     cases hrel : release (f + 1) s c with
-    | none => by_cases h1 : cellType s c = 8 <;> by_cases h2 : cellRef s c > 1 <;> simp [h1, h2] at hor ⊢
+    | none => by_cases h1 : cellType s c = 8 <;> by_cases h2 : cellRef s c > 1 <;> simp [h1, h2, hle] at hor ⊢
     | some s1 =>
       cases hcp : copyPay s1 p with
       | mk s2 pc =>
         have hty : pc.type = 8 := by have := copyPay_type s1 p; rw [hcp] at this; simp only at this; omega
-        by_cases h1 : cellType s c = 8 <;> by_cases h2 : cellRef s c > 1 <;> simp [h1, h2, hcp, allocInit, hty, Deep.alloc, Obj.cell] at hor ⊢
+        by_cases h1 : cellType s c = 8 <;> by_cases h2 : cellRef s c > 1 <;> simp [h1, h2, hle, hcp, allocInit, hty, Deep.alloc, Obj.cell] at hor ⊢
   by_cases hor : cellType s c ≠ 8 ∨ cellRef s c > 1
   · rw [if_pos hor]; exact hcl hor
   · rw [if_neg hor]
@@ -438,7 +451,8 @@ theorem gen_setList (f : Nat) (s : Heap) (this : Obj) (c : Cell) (hc : this.cell
     · obtain ⟨blk, hb, _⟩ := hl.2 b rfl
       have hbt : blk.pay.type = 8 := by simpa [cellType, hb] using h1
       have hbr : ¬ blk.ref > 1 := by simpa [cellRef, hb] using h2
-      simp only [VariantRep.setList, Obj.type, Obj.ref, hb, Option.map_some, hbt, ne_eq, not_true_eq_false, if_false, hbr,
+      have hbr' : blk.ref ≤ 1 := by omega
+      simp only [VariantRep.setList, Obj.type, Obj.ref, hb, Option.map_some, hbt, ne_eq, not_true_eq_false, if_false, if_true, hbr, hbr', and_self, not_true_eq_false,
         Obj.assignPay, hp, and_self, if_true, destroyAll, releaseAll]
       cases hcp : copyPay s p with
       | mk s1 pc =>
@@ -460,15 +474,16 @@ theorem gen_setArray (f : Nat) (s : Heap) (this : Obj) (c : Cell) (hc : this.cel
   have hcl : cellType s c ≠ 9 ∨ cellRef s c > 1 → (VariantRep.setArray (release f) s this p).bind (fun r => r.2.cell.map (fun c' => (r.1, c')))
       = setBoxedCell (f + 1) s c p := by
     intro hor
+    have hle : (cellRef s c ≤ 1) = ¬ (cellRef s c > 1) := propext (by omega)
     have hif : (cellType s c ≠ p.type ∨ cellRef s c > 1) := by rw [hp]; exact hor
     simp only [VariantRep.setArray, setBoxedCell, type_of_cell s this c hc hl, ref_of_cell s this c hc hl, gen_clear f _ this c hc, hif, if_true]
     cases hrel : release (f + 1) s c with
-    | none => by_cases h1 : cellType s c = 9 <;> by_cases h2 : cellRef s c > 1 <;> simp [h1, h2] at hor ⊢
+    | none => by_cases h1 : cellType s c = 9 <;> by_cases h2 : cellRef s c > 1 <;> simp [h1, h2, hle] at hor ⊢
     | some s1 =>
       cases hcp : copyPay s1 p with
       | mk s2 pc =>
         have hty : pc.type = 9 := by have := copyPay_type s1 p; rw [hcp] at this; simp only at this; omega
-        by_cases h1 : cellType s c = 9 <;> by_cases h2 : cellRef s c > 1 <;> simp [h1, h2, hcp, allocInit, hty, Deep.alloc, Obj.cell] at hor ⊢
+        by_cases h1 : cellType s c = 9 <;> by_cases h2 : cellRef s c > 1 <;> simp [h1, h2, hle, hcp, allocInit, hty, Deep.alloc, Obj.cell] at hor ⊢
   by_cases hor : cellType s c ≠ 9 ∨ cellRef s c > 1
   · rw [if_pos hor]; exact hcl hor
   · rw [if_neg hor]
@@ -480,7 +495,8 @@ theorem gen_setArray (f : Nat) (s : Heap) (this : Obj) (c : Cell) (hc : this.cel
     · obtain ⟨blk, hb, _⟩ := hl.2 b rfl
       have hbt : blk.pay.type = 9 := by simpa [cellType, hb] using h1
       have hbr : ¬ blk.ref > 1 := by simpa [cellRef, hb] using h2
-      simp only [VariantRep.setArray, Obj.type, Obj.ref, hb, Option.map_some, hbt, ne_eq, not_true_eq_false, if_false, hbr,
+      have hbr' : blk.ref ≤ 1 := by omega
+      simp only [VariantRep.setArray, Obj.type, Obj.ref, hb, Option.map_some, hbt, ne_eq, not_true_eq_false, if_false, if_true, hbr, hbr', and_self, not_true_eq_false,
         Obj.assignPay, hp, and_self, if_true, destroyAll, releaseAll]
       cases hcp : copyPay s p with
       | mk s1 pc =>
@@ -502,15 +518,16 @@ theorem gen_setString (f : Nat) (s : Heap) (this : Obj) (c : Cell) (hc : this.ce
   have hcl : cellType s c ≠ 10 ∨ cellRef s c > 1 → (VariantRep.setString (release f) s this p).bind (fun r => r.2.cell.map (fun c' => (r.1, c')))
       = setBoxedCell (f + 1) s c p := by
     intro hor
+    have hle : (cellRef s c ≤ 1) = ¬ (cellRef s c > 1) := propext (by omega)
     have hif : (cellType s c ≠ p.type ∨ cellRef s c > 1) := by rw [hp]; exact hor
     simp only [VariantRep.setString, setBoxedCell, type_of_cell s this c hc hl, ref_of_cell s this c hc hl, gen_clear f _ this c hc, hif, if_true]
     cases hrel : release (f + 1) s c with
-    | none => by_cases h1 : cellType s c = 10 <;> by_cases h2 : cellRef s c > 1 <;> simp [h1, h2] at hor ⊢
+    | none => by_cases h1 : cellType s c = 10 <;> by_cases h2 : cellRef s c > 1 <;> simp [h1, h2, hle] at hor ⊢
     | some s1 =>
       cases hcp : copyPay s1 p with
       | mk s2 pc =>
         have hty : pc.type = 10 := by have := copyPay_type s1 p; rw [hcp] at this; simp only at this; omega
-        by_cases h1 : cellType s c = 10 <;> by_cases h2 : cellRef s c > 1 <;> simp [h1, h2, hcp, allocInit, hty, Deep.alloc, Obj.cell] at hor ⊢
+        by_cases h1 : cellType s c = 10 <;> by_cases h2 : cellRef s c > 1 <;> simp [h1, h2, hle, hcp, allocInit, hty, Deep.alloc, Obj.cell] at hor ⊢
   by_cases hor : cellType s c ≠ 10 ∨ cellRef s c > 1
   · rw [if_pos hor]; exact hcl hor
   · rw [if_neg hor]
@@ -522,7 +539,8 @@ theorem gen_setString (f : Nat) (s : Heap) (this : Obj) (c : Cell) (hc : this.ce
     · obtain ⟨blk, hb, _⟩ := hl.2 b rfl
       have hbt : blk.pay.type = 10 := by simpa [cellType, hb] using h1
       have hbr : ¬ blk.ref > 1 := by simpa [cellRef, hb] using h2
-      simp only [VariantRep.setString, Obj.type, Obj.ref, hb, Option.map_some, hbt, ne_eq, not_true_eq_false, if_false, hbr,
+      have hbr' : blk.ref ≤ 1 := by omega
+      simp only [VariantRep.setString, Obj.type, Obj.ref, hb, Option.map_some, hbt, ne_eq, not_true_eq_false, if_false, if_true, hbr, hbr', and_self, not_true_eq_false,
         Obj.assignPay, hp, and_self, if_true, destroyAll, releaseAll]
       cases hcp : copyPay s p with
       | mk s1 pc =>
